@@ -456,6 +456,19 @@ def run(prog: Program) -> Results:
             e = _ee(fcfg, lambda a, t: isinstance(a, ast.Name) and a.id in latches and t is True)
             node = fcfg.containing(st)
             ok = bool(latches) and bool(e) and node is not None and fcfg.all_paths_pass(node, cut_edges=e)
+            # … and the converse: a comment that is not marked inline ends the run.  From the statement that updates the latch,
+            # the next iteration is reached only through the marking or over an edge on which the latch is false — a second
+            # condition on the marking alone (`if run and gap_ok:`) leaves the latch true behind an unmarked comment
+            if ok:
+                upd = [fcfg.node_of(d) for d in ast.walk(loop) if isinstance(d, ast.Assign) and isinstance(d.targets[0], ast.Name)
+                       and d.targets[0].id in latches and isinstance(d.value, ast.BoolOp)]
+                upd = [u for u in upd if u is not None]
+                off = _ee(fcfg, lambda a, t: isinstance(a, ast.Name) and a.id in latches and t is False)
+                ln = fcfg.node_of(loop)
+                for u in upd:
+                    reach = fcfg.reachable(u, removed_nodes=[node], removed_edges=off, follow_exc=False)
+                    if ln in reach or fcfg.exit in reach:
+                        ok = False
             r10.ob(ok, {"collector": f.key, "latch": sorted(latches)})
             if not ok:
                 res.add("R-C03-10", (f.key, "inline flag relative to the previous comment"), f.loc(st),
@@ -616,6 +629,7 @@ def run(prog: Program) -> Results:
                     f"in the output is reversed and a `#` comment can swallow the next one")
     from sa.rules import linecomment
     linecomment.check(prog, res, "R-C03-15")
+    both_halves_consumed(prog, res)
     from sa.rules.c01 import no_greedy_strip
     no_greedy_strip(prog, res, "R-C03-16")  # a comment keeps its wording: `*/` is cut off by position, not by a character-set strip
     res.tables.append(f"sa/tables/grammar.py: {len(PRODUCTIONS)} productions, {len(GENERIC_CLASSES)} generic walkers")
@@ -643,3 +657,56 @@ def _disjoint(prog: Program, ga, routes) -> bool:
                 if any(isinstance(c, ast.Call) and callee(c) == "remove" for c in ast.walk(r.node)):
                     return True
     return False
+
+
+def both_halves_consumed(prog: Program, res: Results) -> None:
+    """R-C03-17: `split_inline_comments` hands back the own-line comments and the same-line comments of one gap; both lists hold
+    comments of the source."""
+    from sa.cfg import CFG, edges_establishing
+    r = res.rule("R-C03-17", "both halves of a split are kept: after `rest, inline = split_inline_comments(<comments>)` every path to a "
+                 "normal exit of the function reads each of the two lists (other than in a bare emptiness test) or has "
+                 "established that it is empty — an early `return inline` drops the own-line comments of the gap", floor=4)
+    for f in prog.all_functions():
+        if not f.module.startswith("nix_manipulator/expressions/"):
+            continue
+        splits = [d for d in walk_no_nested(f.node) if isinstance(d, ast.Assign) and len(d.targets) == 1 and isinstance(d.targets[0], ast.Tuple)
+                  and isinstance(d.value, ast.Call) and callee(d.value) == "split_inline_comments" and all(isinstance(e, ast.Name) for e in d.targets[0].elts)]
+        if not splits:
+            continue
+        cfg = CFG(f.node)
+        res.analysed_functions.add(f.key)
+        for d in splits:
+            dn = cfg.node_of(d)
+            if dn is None:
+                continue
+            for t in d.targets[0].elts:
+                name = t.id
+                if name == "_":
+                    continue
+                r.instances += 1
+
+                def reads(n):
+                    if n.ast is None or n is dn:
+                        return False
+                    root = n.ast.iter if n.kind == "for" else n.ast
+                    if n.kind == "test":
+                        # `if name:` only looks at it; `if f(name):` / a comprehension over it consumes it
+                        t_ = root
+                        bare = {id(x) for x in ast.walk(t_) if isinstance(x, ast.Name) and x.id == name}
+                        used = [x for x in ast.walk(t_) if isinstance(x, (ast.Call, ast.comprehension, ast.Subscript, ast.BinOp))
+                                and any(isinstance(y, ast.Name) and y.id == name for y in ast.walk(x))]
+                        return bool(used) and bool(bare)
+                    return any(isinstance(x, ast.Name) and x.id == name and isinstance(x.ctx, ast.Load) for x in ast.walk(root))
+
+                uses = [n for n in cfg.nodes if reads(n)]
+                redefs = [n for n in cfg.nodes if n is not dn and n.ast is not None and isinstance(n.ast, ast.Assign)
+                          and any(isinstance(x, ast.Name) and x.id == name and isinstance(x.ctx, ast.Store) for tg in n.ast.targets for x in ast.walk(tg))]
+                empty = edges_establishing(cfg, lambda a, tr: (norm(a) in (name, f"len({name})", f"len({name}) > 0") and tr is False)
+                                           or (norm(a) in (f"not {name}", f"len({name}) == 0") and tr is True))
+                reach = cfg.reachable(dn, removed_nodes=uses + redefs, removed_edges=empty, follow_exc=False)
+                lost = cfg.exit in reach
+                r.ob(not lost, {"site": f.key, "half": name})
+                if lost:
+                    res.add("R-C03-17", (f.key, "half of a split dropped on some path", name), f.loc(d),
+                            f"{f.key}: after `{norm(d)[:70]}` a normal exit is reachable on which `{name}` was never read although it may "
+                            f"hold comments: `then # t1\\n  # t2\\n  t` keeps `# t1` and loses `# t2` (or the reverse)")
